@@ -3,11 +3,28 @@
 #include "common.h"
 #include <Bpp/Text/TextTools.h>
 #include <Bpp/Text/KeyvalTools.h>
+#include <Bpp/Text/StringTokenizer.h>
+#include <Bpp/Text/NestedStringTokenizer.h>
 #include <Bpp/Utils/AttributesTools.h>
 #include <Bpp/App/ApplicationTools.h>
 #include <Bpp/Numeric/ParameterList.h>
 #include <Bpp/Numeric/Parameter.h>
+#include <Bpp/Numeric/DataTable.h>
+#include <Bpp/Numeric/Prob/BetaDiscreteDistribution.h>
+#include <Bpp/Numeric/Prob/ConstantDistribution.h>
+#include <Bpp/Numeric/Prob/ExponentialDiscreteDistribution.h>
+#include <Bpp/Numeric/Prob/GammaDiscreteDistribution.h>
+#include <Bpp/Numeric/Prob/GaussianDiscreteDistribution.h>
+#include <Bpp/Numeric/Prob/InvariantMixedDiscreteDistribution.h>
+#include <Bpp/Numeric/Prob/MixtureOfDiscreteDistributions.h>
+#include <Bpp/Numeric/Prob/SimpleDiscreteDistribution.h>
+#include <Bpp/Numeric/Prob/TruncatedExponentialDiscreteDistribution.h>
+#include <Bpp/Numeric/Prob/UniformDiscreteDistribution.h>
+#include <Bpp/Io/BppODiscreteDistributionFormat.h>
+#include <Bpp/Io/OutputStream.h>
+#include <sstream>
 #include <map>
+#include <memory>
 #include <algorithm>
 #include <unistd.h>
 #include <sys/wait.h>
@@ -82,9 +99,143 @@ static std::string varsGuarded(const std::map<std::string, std::string>& m) {
   return "harness-fork-failed";
 }
 
+// `splits_` is protected: a derived class may read it
+struct TokAccess : public StringTokenizer {
+  TokAccess(const std::string& s, const std::string& d, bool solid, bool ae) : StringTokenizer(s, d, solid, ae) {}
+  const std::deque<std::string>& splits() const { return splits_; }
+};
+
+struct NestedAccess : public NestedStringTokenizer {
+  NestedAccess(const std::string& s, const std::string& o, const std::string& e, const std::string& d, bool solid)
+    : NestedStringTokenizer(s, o, e, d, solid) {}
+  const std::deque<std::string>& splits() const { return splits_; }
+};
+
+template <class C> static std::string showStrs(const C& v) {
+  std::string s = std::to_string(v.size());
+  for (const auto& x : v) s += " " + strToHex(x);
+  return s;
+}
+
+// a distribution in prefix notation: G n alpha beta | Go n alpha beta offset | B n alpha beta | E n lambda |
+// N n mu sigma | T n lambda tp | U n begin end | C value | S k v1..vk p1..pk | I p <dist> | M k p1..pk <dist>*k
+// (numbers: n, k decimal; the others 16 hex digits)
+static std::unique_ptr<DiscreteDistributionInterface> buildDist(const Toks& t, size_t& p) {
+  const std::string f = t.at(p++);
+  auto D = [&]() { return hexToDouble(t.at(p++)); };
+  auto N = [&]() { return toU(t.at(p++)); };
+  if (f == "G") { size_t n = N(); double a = D(), b = D(); return std::unique_ptr<DiscreteDistributionInterface>(new GammaDiscreteDistribution(n, a, b)); }
+  if (f == "Go") { size_t n = N(); double a = D(), b = D(), o = D(); return std::unique_ptr<DiscreteDistributionInterface>(new GammaDiscreteDistribution(n, a, b, 0.05, 0.05, true, o)); }
+  if (f == "B") { size_t n = N(); double a = D(), b = D(); return std::unique_ptr<DiscreteDistributionInterface>(new BetaDiscreteDistribution(n, a, b)); }
+  if (f == "E") { size_t n = N(); double l = D(); return std::unique_ptr<DiscreteDistributionInterface>(new ExponentialDiscreteDistribution(n, l)); }
+  if (f == "N") { size_t n = N(); double m = D(), sg = D(); return std::unique_ptr<DiscreteDistributionInterface>(new GaussianDiscreteDistribution(n, m, sg)); }
+  if (f == "T") { size_t n = N(); double l = D(), tp = D(); return std::unique_ptr<DiscreteDistributionInterface>(new TruncatedExponentialDiscreteDistribution(n, l, tp)); }
+  if (f == "U") { size_t n = N(); double b = D(), e = D(); return std::unique_ptr<DiscreteDistributionInterface>(new UniformDiscreteDistribution((unsigned int)n, b, e)); }
+  if (f == "C") { double v = D(); return std::unique_ptr<DiscreteDistributionInterface>(new ConstantDistribution(v)); }
+  if (f == "S") {
+    size_t k = N(); std::vector<double> v, pr;
+    for (size_t i = 0; i < k; ++i) v.push_back(D());
+    for (size_t i = 0; i < k; ++i) pr.push_back(D());
+    return std::unique_ptr<DiscreteDistributionInterface>(new SimpleDiscreteDistribution(v, pr));
+  }
+  if (f == "I") { double pi = D(); auto sub = buildDist(t, p); return std::unique_ptr<DiscreteDistributionInterface>(new InvariantMixedDiscreteDistribution(std::move(sub), pi, 0.000001)); }   // the invariant class is not part of the description: the reader puts it at 1e-6
+  if (f == "M") {
+    size_t k = N(); std::vector<double> pr; for (size_t i = 0; i < k; ++i) pr.push_back(D());
+    std::vector<std::unique_ptr<DiscreteDistributionInterface>> subs;
+    for (size_t i = 0; i < k; ++i) subs.push_back(buildDist(t, p));
+    return std::unique_ptr<DiscreteDistributionInterface>(new MixtureOfDiscreteDistributions(subs, pr));
+  }
+  throw Exception("unknown family");
+}
+
+// family, class count, class values, probabilities, independent parameters (name=value)
+static std::string showDist(const DiscreteDistributionInterface& d) {
+  std::string s = d.getName() + " " + std::to_string(d.getNumberOfCategories());
+  for (size_t i = 0; i < d.getNumberOfCategories(); ++i) s += " " + doubleToHex(d.getCategory(i));
+  for (size_t i = 0; i < d.getNumberOfCategories(); ++i) s += " " + doubleToHex(d.getProbability(i));
+  ParameterList pl = d.getIndependentParameters();
+  s += " P " + std::to_string(pl.size());
+  for (size_t i = 0; i < pl.size(); ++i) s += " " + strToHex(pl[i].getName()) + " " + doubleToHex(pl[i].getValue());
+  return s;
+}
+
 static std::string op(const Toks& t) {
   const std::string& o = t[0];
   try {
+    if (o == "dist.rt") {        // dist.rt <precision> <dist in prefix notation>: write the description, read it back
+      int prec = static_cast<int>(toI(t[1])); size_t p = 2;
+      std::unique_ptr<DiscreteDistributionInterface> d;
+      try { d = buildDist(t, p); } catch (Exception&) { return "build:exc:bpp"; }
+      std::ostringstream os; StlOutputStreamWrapper out(&os); out.setPrecision(prec);
+      BppODiscreteDistributionFormat fmt(false);
+      std::map<std::string, std::string> aliases; std::vector<std::string> written;
+      try { fmt.writeDiscreteDistribution(*d, out, aliases, written); } catch (Exception&) { return "write:exc:bpp"; }
+      std::string desc = os.str();
+      std::string res = strToHex(desc) + " / " + showDist(*d) + " / ";
+      BppODiscreteDistributionFormat rd(false);
+      try { auto back = rd.readDiscreteDistribution(desc, true); res += showDist(*back); }
+      catch (Exception&) { res += "exc:bpp"; }
+      return res;
+    }
+    if (o == "st.rt") {          // st.rt <s> <delims> <solid> <allowEmpty> <k>
+      std::string s = hexToStr(t[1]), d = hexToStr(t[2]); size_t k = toU(t[5]);
+      TokAccess st(s, d, t[3] == "1", t[4] == "1");
+      std::deque<std::string> tokens = st.getTokens();
+      std::string out = showStrs(tokens) + " / " + showStrs(st.splits()) + " / " + strToHex(st.unparseRemainingTokens()) + " / ";
+      size_t kk = std::min(k, tokens.size());
+      std::vector<std::string> got;
+      for (size_t i = 0; i < kk; ++i) got.push_back(st.nextToken());
+      out += showStrs(got) + " / " + strToHex(st.unparseRemainingTokens()) + " / ";
+      if (kk == tokens.size()) {
+        try { st.nextToken(); out += "!"; } catch (Exception&) { out += "x"; }
+      } else out += "-";
+      return out;
+    }
+    if (o == "nst.rt") {         // nst.rt <s> <open> <end> <delims> <solid> <k>
+      std::string s = hexToStr(t[1]); size_t k = toU(t[6]);
+      NestedAccess nst(s, hexToStr(t[2]), hexToStr(t[3]), hexToStr(t[4]), t[5] == "1");
+      const StringTokenizer& base = nst;           // unparse through the base class, as a client holding a StringTokenizer& does
+      std::deque<std::string> tokens = nst.getTokens();
+      std::string out = showStrs(tokens) + " / " + showStrs(nst.splits()) + " / " + strToHex(base.unparseRemainingTokens()) + " / ";
+      size_t kk = std::min(k, tokens.size());
+      std::vector<std::string> got;
+      for (size_t i = 0; i < kk; ++i) got.push_back(nst.nextToken());
+      out += showStrs(got) + " / " + strToHex(nst.unparseRemainingTokens()) + " / ";
+      if (kk == tokens.size()) {
+        try { nst.nextToken(); out += "!"; } catch (Exception&) { out += "x"; }
+      } else out += "-";
+      return out;
+    }
+    if (o == "tbl.rt") {         // tbl.rt <sep> <align> <nCol> <hasCol> <hasRow> <nRows> items...
+      std::string sep = hexToStr(t[1]); bool align = t[2] == "1";
+      size_t nCol = toU(t[3]); bool hasCol = t[4] == "1", hasRow = t[5] == "1"; size_t nRows = toU(t[6]);
+      size_t p = 7;
+      std::unique_ptr<DataTable> dt;
+      try {
+        dt.reset(new DataTable(nCol));
+        if (hasCol) { std::vector<std::string> cn; for (size_t j = 0; j < nCol; ++j) cn.push_back(hexToStr(t[p++])); if (!cn.empty()) dt->setColumnNames(cn); }
+        for (size_t i = 0; i < nRows; ++i) {
+          std::string name; if (hasRow) name = hexToStr(t[p++]);
+          std::vector<std::string> row; for (size_t j = 0; j < nCol; ++j) row.push_back(hexToStr(t[p++]));
+          if (hasRow) dt->addRow(name, row); else dt->addRow(row);
+        }
+      } catch (Exception&) { return "build:exc:bpp"; }
+      std::ostringstream os;
+      try { DataTable::write(*dt, os, sep, align); } catch (Exception&) { return "write:exc:bpp"; }
+      std::string text = os.str();
+      std::string out = strToHex(text) + " / ";
+      std::istringstream is(text);
+      int rn = (dt->hasRowNames() && !dt->hasColumnNames()) ? 0 : -1;
+      std::unique_ptr<DataTable> back;
+      try { back = DataTable::read(is, sep, dt->hasColumnNames(), rn); } catch (Exception&) { return out + "exc:bpp"; }
+      out += std::to_string(back->getNumberOfColumns()) + " " + std::to_string(back->getNumberOfRows()) + " ";
+      if (back->hasColumnNames()) out += showStrs(back->getColumnNames()); else out += "0";
+      out += " ";
+      if (back->hasRowNames()) out += showStrs(back->getRowNames()); else out += "0";
+      for (size_t i = 0; i < back->getNumberOfRows(); ++i)
+        for (size_t j = 0; j < back->getNumberOfColumns(); ++j) out += " " + strToHex((*back)(i, j));
+      return out;
+    }
     if (o == "num") {            // num <s> <dec> <sci>
       std::string s = hexToStr(t[1]); char dec = hexToStr(t[2])[0], sci = hexToStr(t[3])[0];
       std::string out = TextTools::isDecimalNumber(s, dec, sci) ? "1" : "0";
